@@ -233,6 +233,9 @@ var c04TailRec = []string{
 }
 
 var c04NearConstPaths = []string{
+	// a constant-path assignment inside a path expression: the value assigned is no part of the path around it (known
+	// finding D49: the direct setpath lowering evaluates it with path tracking on)
+	"path((.a = ([5, 6] | .[1]) | empty), .b)", "try path(.[0]? | (.[0] = ([5, 6] | .[1]))) catch .",
 	// constant-path assignments whose right-hand side has several outputs, chained into further constant-path
 	// assignments that run on other values before the first is resumed
 	".a = (1, 2) | .c | .b = 3", ".a = (1, 2) | .b = (3, 4)", ".x.y = (.a, .b) | .x | .z = 1", "[.a = (1, 2) | .c? | .b = 3]", ".a = (1, 2) | [.b = 3, (.c? | .d = 4)]", "(.a = (1, 2)) as $v | .c? | .b = $v", ".a = (.b = (1, 2) | .c?) | .d = 5",
